@@ -1,5 +1,6 @@
-// Family c06: trie/trie.go Update/Delete/UpdateBatch/Get/Hash (in-memory trie)
-// vs coq/Trie/Ops.v + coq/Trie/Hash.v (root hash through the Coq Keccak).
+// Family c06: trie/trie.go Update/Delete/UpdateBatch/Get/Hash and trie/iterator.go
+// (in-memory trie) vs coq/Trie/Ops.v + coq/Trie/Hash.v (root hash through the Coq
+// Keccak) + coq/Trie/Iter.v.
 package main
 
 import (
@@ -29,6 +30,26 @@ func rootOf(m map[string][]byte, keys []string) common.Hash {
 	return t.Hash()
 }
 
+// checkRoot is the direct oracle applied after every mutation: the root equals the root
+// of a fresh trie built (in sorted key order) from the reference map.
+func checkRoot(got common.Hash, ref map[string][]byte, at int) string {
+	if len(ref) == 0 {
+		if got != types.EmptyRootHash {
+			return fmt.Sprintf("op %d: empty set but root %x", at, got)
+		}
+		return ""
+	}
+	keys := make([]string, 0, len(ref))
+	for k := range ref {
+		keys = append(keys, k)
+	}
+	sort.Strings(keys)
+	if want := rootOf(ref, keys); got != want {
+		return fmt.Sprintf("op %d: root %x differs from root %x of a fresh trie built from the current set", at, got, want)
+	}
+	return ""
+}
+
 func run(c Sx) Result {
 	ops := AsList(c)
 	t := newTrie()
@@ -36,8 +57,8 @@ func run(c Sx) Result {
 	var obs SL
 	var fails []string
 	res := Result{}
-	nbatch, ndel, nget := 0, 0, 0
-	for _, o := range ops {
+	nbatch, ndel, nget, niter := 0, 0, 0, 0
+	for opi, o := range ops {
 		l := AsList(o)
 		switch AsInt(l[0]) {
 		case 0:
@@ -53,7 +74,11 @@ func run(c Sx) Result {
 			} else {
 				ref[string(k)] = v
 			}
-			obs = append(obs, B(t.Hash().Bytes()))
+			h := t.Hash()
+			obs = append(obs, B(h.Bytes()))
+			if f := checkRoot(h, ref, opi); f != "" && len(fails) == 0 {
+				fails = append(fails, f)
+			}
 		case 1:
 			kvs := AsList(l[2])
 			var keys, vals [][]byte
@@ -75,7 +100,11 @@ func run(c Sx) Result {
 				}
 			}
 			nbatch++
-			obs = append(obs, B(t.Hash().Bytes()))
+			h := t.Hash()
+			obs = append(obs, B(h.Bytes()))
+			if f := checkRoot(h, ref, opi); f != "" && len(fails) == 0 {
+				fails = append(fails, f)
+			}
 		case 2:
 			k := AsBytes(l[1])
 			v, err := t.Get(k)
@@ -89,6 +118,20 @@ func run(c Sx) Result {
 			if !bytes.Equal(v, ref[string(k)]) {
 				fails = append(fails, fmt.Sprintf("Get(%x)=%x, reference map has %x", k, v, ref[string(k)]))
 			}
+		case 3:
+			// drain a key/value iterator over the whole trie
+			it := trie.NewIterator(t.MustNodeIterator(nil))
+			var l SL
+			for it.Next() {
+				l = append(l, L(B(common.CopyBytes(it.Key)), B(common.CopyBytes(it.Value))))
+			}
+			if it.Err != nil {
+				obs = append(obs, L(I(-2), I(1)))
+				fails = append(fails, "iterator error: "+it.Err.Error())
+				break
+			}
+			niter++
+			obs = append(obs, l)
 		default:
 			panic("hxlib: unknown op")
 		}
@@ -159,6 +202,10 @@ func run(c Sx) Result {
 	if ndel > 0 {
 		res.Tags = append(res.Tags, "delete")
 	}
+	if niter > 0 {
+		res.Tags = append(res.Tags, "iterate")
+	}
+	_ = nget
 	res.NonTrivial = len(ops) >= 4 && (ndel > 0 || nbatch > 0) && len(ref) >= 1
 	return res
 }
@@ -171,6 +218,14 @@ func genKey(r *Rng, style int) []byte {
 		al := []byte{0x00, 0x01, 0x10, 0x11}
 		for i := range k {
 			k[i] = al[r.Intn(4)]
+		}
+		return k
+	case 2: // 1-2 byte keys with many different first nibbles (wide root branch, batch groups)
+		n := 1 + r.Intn(2)
+		k := make([]byte, n)
+		al := []byte{0x00, 0x01, 0x10, 0x20, 0x30, 0x31, 0xf0}
+		for i := range k {
+			k[i] = al[r.Intn(len(al))]
 		}
 		return k
 	default: // 32-byte keys sharing long prefixes
@@ -202,20 +257,62 @@ func genVal(r *Rng) []byte {
 	}
 }
 
+// exhaustive emits every sequence of exactly n updates over the 6-key universe
+// (put of a per-key value, or delete), as single Update ops.
+func exhaustive(n int, emit func(Sx)) {
+	keys := [][]byte{{0x12}, {0x12, 0x34}, {0x12, 0x35}, {0x13}, {0x21}, {0x12, 0x34, 0x56}}
+	nops := 2 * len(keys)
+	idx := make([]int, n)
+	for {
+		var ops SL
+		for _, o := range idx {
+			k := keys[o/2]
+			var v []byte
+			if o%2 == 0 {
+				v = []byte{byte(0xa0 + o/2), byte(n)}
+			}
+			ops = append(ops, L(I(0), B(k), B(v)))
+		}
+		emit(ops)
+		i := n - 1
+		for i >= 0 {
+			idx[i]++
+			if idx[i] < nops {
+				break
+			}
+			idx[i] = 0
+			i--
+		}
+		if i < 0 {
+			return
+		}
+	}
+}
+
 func gen(r *Rng, tier string, emit func(Sx)) {
 	n := 500
 	if tier == "thorough" {
-		n = 12000
+		n = 6000
+		// exhaustive sequences of length <= 4 over a 6-key universe (put/delete), and a
+		// seed-dependent 1/8 slice of the length-5 sequences
+		for l := 1; l <= 4; l++ {
+			exhaustive(l, emit)
+		}
+		pick := r.Intn(8)
+		cnt := 0
+		exhaustive(5, func(c Sx) {
+			if cnt%8 == pick {
+				emit(c)
+			}
+			cnt++
+		})
+	} else {
+		for l := 1; l <= 2; l++ {
+			exhaustive(l, emit)
+		}
 	}
 	for i := 0; i < n; i++ {
-		style := r.Intn(2)
-		if r.Chance(1, 10) {
-			style = 2 // mixed lengths is not allowed in one trie for 32-byte style; 2 = short keys again
-		}
-		ks := style
-		if ks == 2 {
-			ks = 0
-		}
+		ks := r.Intn(3) // 0: dense 4-symbol keys, 1: 32-byte keys, 2: wide first nibbles
 		nops := 1 + r.Intn(30)
 		var ops SL
 		for j := 0; j < nops; j++ {
@@ -225,22 +322,42 @@ func gen(r *Rng, tier string, emit func(Sx)) {
 				if r.Chance(1, 4) {
 					sz = 3 + r.Intn(38)
 				}
+				delHeavy := r.Chance(1, 3)
 				var kvs SL
 				for q := 0; q < sz; q++ {
-					kvs = append(kvs, L(B(genKey(r, ks)), B(genVal(r))))
+					v := genVal(r)
+					if delHeavy && r.Chance(1, 2) {
+						v = nil
+					}
+					kvs = append(kvs, L(B(genKey(r, ks)), B(v)))
 				}
-				// ascending nibble order for the model (result is order independent)
+				// application order used by the MODEL: a random permutation of 0..16 (the
+				// result is order independent: C06_batch_eq_sequential); the Go side runs
+				// the real goroutines
+				perm := make([]int, 17)
+				for nb := range perm {
+					perm[nb] = nb
+				}
+				for nb := 16; nb > 0; nb-- {
+					o := r.Intn(nb + 1)
+					perm[nb], perm[o] = perm[o], perm[nb]
+				}
 				var order SL
-				for nb := 0; nb < 17; nb++ {
+				for _, nb := range perm {
 					order = append(order, I(int64(nb)))
 				}
 				ops = append(ops, L(I(1), order, kvs))
 			case 2:
-				ops = append(ops, L(I(2), B(genKey(r, ks))))
+				if r.Chance(1, 3) {
+					ops = append(ops, L(I(3)))
+				} else {
+					ops = append(ops, L(I(2), B(genKey(r, ks))))
+				}
 			default:
 				ops = append(ops, L(I(0), B(genKey(r, ks)), B(genVal(r))))
 			}
 		}
+		ops = append(ops, L(I(3)))
 		emit(ops)
 	}
 }
@@ -248,7 +365,7 @@ func gen(r *Rng, tier string, emit func(Sx)) {
 func main() {
 	Main(Family{
 		ID:   "C06",
-		Rule: "random histories (1-30 ops) of Update/Delete (empty value)/UpdateBatch (1-40 entries, real goroutines)/Get on an in-memory trie; keys either 1-3 bytes over a 4-symbol alphabet (dense shared prefixes, keys that are prefixes of other keys) or 32-byte keys sharing 28+ byte prefixes; values 1-40 bytes (embedded < 32 and hashed >= 32 node encodings). Root hash observed after every op. Non-trivial: >= 4 ops including a delete or a batch, non-empty final set; distinct = distinct case line.",
+		Rule: "random histories (1-30 ops) of Update/Delete (empty value)/UpdateBatch (1-40 entries, real goroutines; a third of the batches deletion-heavy; the model applies the per-nibble groups in a random order)/Get on an in-memory trie; keys 1-3 bytes over a 4-symbol alphabet (dense shared prefixes, keys that are prefixes of other keys), 1-2 bytes over a 7-symbol alphabet with 5 different first nibbles (wide root branch), or 32-byte keys sharing 28+ byte prefixes; values 1-40 bytes (embedded < 32 and hashed >= 32 node encodings); plus every put/delete sequence of length <= 2 (quick) / <= 4 and 1/8 of length 5 (thorough) over a 6-key universe. Root hash observed after every op, the full key/value iteration at random points and at the end of every random history. Non-trivial: >= 4 ops including a delete or a batch, non-empty final set; distinct = distinct case line.",
 		Gen:  gen,
 		Run:  run,
 	})
